@@ -47,6 +47,7 @@ type Req struct {
 	NoExec bool
 	Shared bool
 	PrintRaw bool // call PrintSyntaxTree() on the process's standard output (not captured per call)
+	TreeFirst bool // build and print the syntax tree BEFORE calling Execute() (default: Execute first)
 }
 
 type Res struct {
@@ -120,7 +121,7 @@ func collect[U Uint](p *{{.Type}}[U], err error, req *Req, res *Res) {
 	for _, t := range p.Tokens() {
 		res.Toks = append(res.Toks, Tk{rul3s[t.pegRule], uint64(t.begin), uint64(t.end)})
 	}
-{{if .HasActions}}	if !req.NoExec {
+{{if .HasActions}}	if !req.NoExec && !req.TreeFirst {
 		p.Execute()
 	}
 {{end}}
@@ -149,6 +150,10 @@ func collect[U Uint](p *{{.Type}}[U], err error, req *Req, res *Res) {
 		res.PStdout = captureStdout(func() { p.PrintSyntaxTree() })
 		p.Pretty = !p.Pretty
 	}
+{{if .HasActions}}	if !req.NoExec && req.TreeFirst {
+		p.Execute() // the order of the calls must not matter
+	}
+{{end}}
 {{end}}
 	res.Trace = p.Trace
 }
